@@ -13,7 +13,7 @@ PROP = 'C20'
 META = dict(
     explanation='The real rxsci code of parquet.dump_to_file (batch -> to_record / create_record -> _dump_parquet) and load_from_file runs over FakeArrow, a contract stub of the pyarrow calls it makes '
                 '(pa.array copies, RecordBatch.from_arrays holds columns, ParquetWriter.write appends the rows of the batch, ParquetFile.iter_batches yields the rows in order in chunks). '
-                'Row count N concrete per obligation, dump batch size and load batch size solver-chosen in 1..N+1, row values symbolic (int column, str column). Asserted: the file contains exactly the source rows, once each, in order; '
+                'Row count N concrete per obligation, dump batch size and load batch size solver-chosen in 1..N+1, row values symbolic (int column, str column). Asserted: the file contains exactly the source rows, once each, in order - also when the same dump pipeline is subscribed a second time; '
                 'the writer is closed; load_from_file returns the rows equal to the source, for every load batch size. The stub is validated at the start of every run by pushing identical scenarios through the real pyarrow '
                 '(incl. (rows, batch) = (2048, 1024), (5000, 999), snappy/zstd) and comparing the rows left in the file and the rows loaded.',
     bounds=dict(quick='N <= 8 rows, dump batch 1..N+1, load batch 1..N+1, 2 columns (int, str of length 1)', thorough='N <= 12 rows'),
@@ -52,12 +52,19 @@ def roundtrip(p):
         lb = 1 + _sel(a[1], n + 1)
         rows = [dict(a=a[2 + i], b=a[2 + n + i]) for i in range(n)]
         with Env():
-            f = FA.FFile()
-            done = []
-            D.src(rows).pipe(P.dump_to_file(f, FA.FSchema(['a', 'b']), batch_size=bs)).subscribe(on_error=lambda e: done.append(('ERR', repr(e))), on_completed=lambda: done.append('C'))
-            written = [dict(a=r[0], b=r[1]) for r in f.rows]
-            if done != ['C'] or written != rows or not f.writer_closed:
-                return fail(stage='dump_to_file', rows=rows, dump_batch=bs, observed=written, writes=f.writes, done=done, writer_closed=f.writer_closed)
+            # the same source.pipe(dump_to_file(...)) observable is subscribed twice (re-export / retry): each run must write exactly the rows
+            holder = FA.FFile()
+            obs_ = D.src(rows).pipe(P.dump_to_file(holder, FA.FSchema(['a', 'b']), batch_size=bs))
+            for sub in (1, 2):
+                holder.rows = []
+                holder.writes = []
+                holder.writer_closed = False
+                done = []
+                obs_.subscribe(on_error=lambda e: done.append(('ERR', repr(e))), on_completed=lambda: done.append('C'))
+                written = [dict(a=r[0], b=r[1]) for r in holder.rows]
+                if done != ['C'] or written != rows or not holder.writer_closed:
+                    return fail(stage='dump_to_file', subscription=sub, rows=rows, dump_batch=bs, observed=written, writes=holder.writes, done=done, writer_closed=holder.writer_closed)
+            f = holder
             for w in f.writes:
                 if w > bs or w == 0:
                     return fail(stage='dump_to_file', problem='batch of %d rows written with batch_size %d' % (w, bs), writes=f.writes)
